@@ -28,6 +28,26 @@ claimed={
    text="Histories of create / increment / close / reopen (restart) / extend by 1..3 concurrent writer processes over names of 1..4096 bytes of arbitrary content and build metadata up to and beyond the 512-byte cap, optionally starting from a file produced by the independent encoder (different placement policy, tail insertion). Every intermediate snapshot is strictly decoded (prefix, header length, 512 buckets, FNV-1a bucket of every linked name, 32-byte alignment, no overlap, page tails free, limit monotone and within the file); the final content equals the model; the library's reader agrees with the independent decoder; (previous limit mod page, name length) placement cases reached are counted.",
    note="Trusted: refformat (written from the layout comment), simrt. Placement pairs are sampled, not enumerated over the full page period.",
    tech=T+"independent codec as oracle in both directions (library-written files decoded, encoder-written files opened by the library)"),
+ "C07": dict(level="exploration", design="5 (C07), 10.5",
+   text="Machine-world histories over simulated weeks: counter files of several programs/versions/platforms (expired, active, empty, unreadable), then 1..4 concurrent real upload.Run calls (mode on or local) interleaved at file-system/HTTP-call granularity with tape-permuted map iteration order and repeated rounds. After each round: for every week that had no report, whose files all ended before the start time and are readable and of which one is non-empty, exactly one local report whose per-build counters and stacks equal the reference aggregation; reports that existed keep their bytes; from the call log: a counter file is removed only while a report for its week exists, and active or unreadable files receive no mutating call and hash identically afterwards.",
+   note="Trusted: simrt shim and scheduler, refformat/refreport/refstack. configstore.Download is a stub; counter files come from the independent encoder. Two genuine defects found by this world were repaired by fix: commits (report visible before written; local report written after the uploadable one).",
+   tech=T+"file-system-call-granularity interleaving of real uploaders, reference aggregation model, call-log oracle"),
+ "C08": dict(level="exploration", design="5 (C08)",
+   text="The same world in mode on with 2..4 concurrent uploaders per round, kills after any file-system/HTTP call (nothing unwound, lock files stay) and per-request server fates (200, 4xx, 5xx, no answer, processed-but-answer-lost, duplicate delivery). Safety over the server-side history: every body the server accepted for a week is byte-identical; no request for a week after it was acknowledged and recorded as uploaded; a task that got 5xx/no answer makes no further mutating call on the report, one that got 4xx does not mark it uploaded. Liveness (family without kills): once the server answers 200, three more sequential runs leave no sendable report behind and each delivered week was acknowledged to a client exactly once.",
+   note="The server stub is adversarial about availability, not validity (its verdict on a given body is stable); with an inconsistent server a stale read-before-lock buffer could be accepted after its report was discarded and rebuilt - noted in DESIGN.md. Liveness is not claimed with kills, as the statement says.",
+   tech=T+"kill and server-fate injection, server-side history oracle, bounded liveness after faults stop"),
+ "C01": dict(level="exploration", design="5 (C01)",
+   text="Every request body seen by the simulated transport is compared field by field with the reference filter applied to the reference aggregation of the week's files under the configuration version fetched by the run that built that report and the X the body carries (X is forced through crypto/rand.Reader to dyadic values equal and adjacent to the configured rates, so the X==Rate boundary is reached): approved program builds only, counters that are expansions of listed counters with rate >= X, stacks by first line, equal values, every approved local counter present, no undocumented field, URL = endpoint/week. Configurations change version between rounds and reports are left over to later runs by server outcomes.",
+   note="Generated configs avoid duplicate names with different rates and malformed bucket syntax. Trusted: refcfg/refreport (written from the field comments and the property), simrt transport.",
+   tech=T+"differential oracle on every outgoing request against an independent config/aggregation model"),
+ "C02": dict(level="exploration", design="5 (C02)",
+   text="Between uploader rounds the mode changes through SetModeAsOf (back-dated opt-in dates), arbitrary mode-file bytes and invalid modes; files, opt-in date and run time sit on a simulated calendar with 21-day and opt-in boundaries. Per request: independently parsed mode is exactly on, week not in the future and after the opt-in date. Per uploadable report: built in mode on, not older than 21 days, X not above a positive sample rate, all data strictly after the opt-in date. Rounds in mode off: no mutating call on, and no change to, any counter file or report. Other content behaves as local. SetModeAsOf/Mode round-trip; invalid modes rejected with the bytes unchanged.",
+   note="Uploader side; the counter API's off-mode behaviour (Open does nothing) is not driven here. Unreadable mode file is modelled by unparsable content / a directory, not permissions (sandbox runs as root).",
+   tech=T+"simulated calendar and mode histories, independent mode-file parser, directory snapshots and call log"),
+ "C19": dict(level="exploration", design="5 (C19)",
+   text="The real runOn/runLocal/runOff/runClean are run as simulated user processes between uploader rounds over directories populated by the simulation plus foreign files with names matching exactly, nearly or not at all the data-file patterns, and sub-directories. After clean: exactly the counter files and reports (local and uploaded) are gone, everything else hashes the same. A mode command leaves the file byte-identical when the parsed mode already equals the request, otherwise the file is `<mode> <simulated UTC date>` and the library reads that back.",
+   note="Input-heavy property: claimed for the clauses that meet the simulated history, clock and disk. Sub-directories carry no data suffix.",
+   tech=T+"user commands as simulated processes inside machine histories, directory model"),
 }
 checks=[]
 for pid,c in sorted(claimed.items()):
